@@ -325,6 +325,7 @@ func propC04(c *Ctx) {
 	checkRequiredFieldsIndependent(c, "R4.6")
 	c.Rule("R4.7", "a task emits only what its own filters accept: every cell value is offered to its column's filter (logs left in a shared cached block by another task cannot slip through)", 6)
 	checkEveryCellFiltered(c, "R4.7")
+	checkFiltersNeverOverwritten(c, "R4.7")
 	c.Rule("R4.5", "attaching logs to a block shared with another task drops a log only as a duplicate", 2)
 	checkLogsAddDedup(c, "R4.5")
 	checkLogsMergedNotReplaced(c, "R4.5")
